@@ -113,6 +113,11 @@ def check(ctx, cname, crs, lon, lat, container, mode, value, ckind):
     scale = float(max(1, max(abs(v) for v in ext)))
     tol = Fraction(scale) * Fraction(1, 10 ** 9)
     probs = []
+    # "in the requested CRS" (up to pyproj's re-rendering of the definition): the area's own CRS puts every point where the requested one does
+    xa, ya = _project(area.crs, lon, lat)
+    if not (np.allclose(xa[ok], xs, rtol=0, atol=1e-9 * scale) and np.allclose(ya[ok], ys, rtol=0, atol=1e-9 * scale)):
+        probs.append(f"the area is not in the requested CRS: its CRS {area.crs.to_proj4()} puts the points up to "
+                     f"{float(max(np.max(np.abs(xa[ok] - xs)), np.max(np.abs(ya[ok] - ys)))):.6g} away from where the requested CRS puts them")
     # containment of every finite point + valid pixel
     if not (ext[0] - tol <= xmin and xmax <= ext[2] + tol and ext[1] - tol <= ymin and ymax <= ext[3] + tol):
         probs.append("extent does not contain the projected position of every finite point")
@@ -334,6 +339,105 @@ def suite_wide_and_histories(ctx):
         ctx.case("freeze-history", str(hist), nontrivial=len(hist) > 1)
 
 
+def _pm_crs_pool(ctx):
+    """geographic CRSs whose prime meridian is not Greenwich, in the forms a caller may hold them: PROJ strings, dicts, named prime
+    meridians, other ellipsoids, and the CRS of an area that freeze(antimeridian_mode='modify_crs') itself produced (as CRS object,
+    WKT, PROJ string, dict) re-used for the next dynamic area"""
+    import pyproj
+    from pyresample.geometry import DynamicAreaDefinition
+    r = ctx.rng
+    pool = [("longlat_pm180", "+proj=longlat +ellps=WGS84 +pm=180"),
+            ("longlat_pm90", "+proj=longlat +ellps=WGS84 +pm=90"),
+            ("longlat_pm-90_datum", {"proj": "longlat", "datum": "WGS84", "pm": -90}),
+            ("longlat_pm_random", {"proj": "longlat", "ellps": "WGS84", "pm": round(r.uniform(-179, 179), r.choice([0, 2, 6]))}),
+            ("longlat_pm_paris", "+proj=longlat +ellps=WGS84 +pm=paris"),
+            ("longlat_grs80_pm", {"proj": "longlat", "ellps": "GRS80", "pm": r.choice([-60, 30, 150])}),
+            ("longlat_sphere_pm", f"+proj=longlat +R=6371229 +pm={r.choice([120, -135, 10])}")]
+    # first granule crosses +-180 and is frozen with modify_crs; its CRS is what the following granules are frozen on
+    n = r.randrange(4, 12)
+    lon = np.array([((180 + r.uniform(-8, 8)) + 180) % 360 - 180 for _ in range(n)])
+    lon[0], lon[1] = 179.5, -179.5
+    lat = np.array([r.uniform(-40, 50) for _ in range(n)])
+    with warnings.catch_warnings():
+        warnings.simplefilter("ignore")
+        first = DynamicAreaDefinition("d", "d", r.choice(["EPSG:4326", {"proj": "longlat", "ellps": "WGS84"}])).freeze(
+            (lon.reshape(1, n), lat.reshape(1, n)), resolution=0.5, antimeridian_mode="modify_crs")
+    c1 = first.crs
+    with warnings.catch_warnings():
+        warnings.simplefilter("ignore")
+        pool += [("modify_crs_result.crs", c1), ("modify_crs_result.wkt", c1.to_wkt()), ("modify_crs_result.proj4", c1.to_proj4()),
+                 ("modify_crs_result.dict", c1.to_dict())]
+    with warnings.catch_warnings():
+        warnings.simplefilter("ignore")
+        return [(f"{nm}: {pyproj.CRS(crs).to_proj4()}", crs, float(pyproj.CRS(crs).prime_meridian.longitude)) for nm, crs in pool]
+
+
+def suite_prime_meridian(ctx):
+    """"for all CRSs": geographic CRSs counting longitude from another meridian.  x of a point is then (lon - pm) wrapped, the seam of
+    the CRS lies at pm + 180.  (a) clouds away from that seam - among them clouds over +-180 Greenwich, which are ordinary clouds
+    here - through the general check (independent transformation into the CRS, plain containment, valid pixels, resolution /
+    shape); (b) clouds over the seam of the CRS with modify_extents: containment modulo 360 in the area's own CRS"""
+    import pyproj
+    from pyresample.geometry import DynamicAreaDefinition
+    r = ctx.rng
+    pool = _pm_crs_pool(ctx)
+    for k in range(len(pool) * (2 if ctx.quick else 12)):
+        cname, crs, pm = pool[k % len(pool)]
+        off = r.choice([r.uniform(-150, 150), r.uniform(-150, 150), 180 - pm + r.uniform(-3, 3), -pm + r.uniform(-3, 3)])
+        if abs((off + 180) % 360 - 180) > 150:       # (keep clear of the seam of this CRS)
+            off = r.uniform(-150, 150)
+        lon0, lat0 = ((pm + off) + 180) % 360 - 180, r.uniform(-60, 60)
+        ckind = r.choice(["random", "swath", "nan_edges", "dyadic"])
+        lon, lat = _cloud(r, ckind, lon0, lat0)
+        container = r.choice(["numpy", "dask", "swath"])
+        ctx.count("pm.cloud_over_greenwich_antimeridian" if np.nanmax(lon) - np.nanmin(lon) > 300 else "pm.cloud_elsewhere")
+        if r.random() < 0.5:
+            check(ctx, cname, crs, lon, lat, container, "resolution", r.choice([0.125, 0.25, 0.5, (0.5, 0.25), 1.0]), ckind)
+        else:
+            check(ctx, cname, crs, lon, lat, container, "shape", (r.randrange(2, 40), r.randrange(2, 40)), ckind)
+    # (b) over the seam of the CRS itself
+    for k in range(len(pool) * (1 if ctx.quick else 6)):
+        cname, crs, pm = pool[k % len(pool)]
+        n = r.randrange(4, 30)
+        seam = pm + 180
+        lon = np.array([((seam + r.uniform(-8, 8)) + 180) % 360 - 180 for _ in range(n)])
+        lon[0], lon[1] = ((seam - 0.1 - r.random() * 0.9) + 180) % 360 - 180, ((seam + 0.1 + r.random() * 0.9) + 180) % 360 - 180
+        lat = np.array([r.uniform(-55, 55) for _ in range(n)])
+        mode, value = r.choice([("resolution", r.choice([0.25, 0.5, 1.0])), ("shape", (r.randrange(2, 14), r.randrange(2, 30)))])
+        container = r.choice(["numpy", "dask", "swath"])
+        inp = {"crs": cname, "prime_meridian": pm, "antimeridian_mode": "modify_extents", "container": container, mode: value if mode != "shape" else list(value),
+               "lon": [float(v) for v in lon], "lat": [float(v) for v in lat]}
+        try:
+            with warnings.catch_warnings():
+                warnings.simplefilter("ignore")
+                area = DynamicAreaDefinition("d", "d", crs).freeze(_wrap(container, lon.reshape(1, n).copy(), lat.reshape(1, n).copy()),
+                                                                     antimeridian_mode="modify_extents", **{mode: value})
+                x, y = pyproj.Transformer.from_crs(pyproj.CRS(4326), area.crs, always_xy=True).transform(lon, lat)
+        except Exception as e:  # noqa
+            ctx.fail("DynamicAreaDefinition.freeze", f"raised {type(e).__name__}: {e}", inp, size=n)
+            continue
+        ext = [float(v) for v in area.area_extent]
+        probs = []
+        xr, yr = pyproj.Transformer.from_crs(pyproj.CRS(4326), pyproj.CRS(crs), always_xy=True).transform(lon, lat)
+        if not (np.allclose((np.asarray(xr) - np.asarray(x) + 180) % 360 - 180, 0, rtol=0, atol=1e-9) and np.allclose(yr, y, rtol=0, atol=1e-9)):
+            probs.append(f"the area is not in the requested CRS but in {area.crs.to_proj4()}")
+        w = np.asarray(x, float) % 360
+        if not (ext[0] <= w.min() + 1e-9 and w.max() <= ext[2] + 1e-9):
+            probs.append(f"modify_extents: x extent ({ext[0]:.4f}, {ext[2]:.4f}) does not contain every x modulo 360 ({w.min():.4f} .. {w.max():.4f}) of the area's own CRS")
+        if ext[2] - ext[0] > 60:
+            probs.append("modify_extents: the area spans far more than the data (not the smallest area across the seam)")
+        if not (ext[1] <= np.min(y) + 1e-9 and np.max(y) <= ext[3] + 1e-9):
+            probs.append("latitudes not contained")
+        if mode == "resolution" and abs(area.pixel_size_x - value) > 1e-9:
+            probs.append("resolution not honoured")
+        if mode == "shape" and (area.height, area.width) != tuple(value):
+            probs.append("shape not honoured")
+        if probs:
+            ctx.fail("DynamicAreaDefinition.freeze(antimeridian_mode)", "; ".join(probs[:3]), inp, {"extent": ext, "shape": [area.height, area.width], "crs": area.crs.to_proj4()},
+                     tags={"amode": "modify_extents", "mode": mode, "family": "prime-meridian-seam"}, size=n)
+        ctx.case("prime-meridian-seam", (cname, mode, str(value), container, float(lon.sum())), nontrivial=True, sample={"input": inp, "extent": ext})
+
+
 def suite_given(ctx):
     """explicitly given extent and shape are kept"""
     from pyresample.geometry import DynamicAreaDefinition
@@ -370,4 +474,5 @@ def run(ctx):
         check(ctx, "geographic", "EPSG:4326", lon, lat, r.choice(["numpy", "swath"]), "resolution", 0.5, "pole_inside")
     suite_antimeridian(ctx)
     suite_wide_and_histories(ctx)
+    suite_prime_meridian(ctx)
     suite_given(ctx)
